@@ -638,7 +638,9 @@ def run(ctx):
         meta = r['meta']
         per = 5 if quick else 30
         for s in r['snaps'][:per]:
-            if finite_snap(s):
+            # the model zeroes the start state with the threshold index of the mass balance; a step during which the lookup table was
+            # rebuilt between the first derivative evaluation and the mass balance (RK4 on a ramp) is not comparable
+            if finite_snap(s) and np.array_equal(s.get('rdfi_start', s['rdfi']), s['rdfi']):
                 terms.append(step_term(meta, s))
                 tags.append(('step', c['name'], s['step'], c))
         for rec in r['recs']['lookup'][:6 if quick else 30]:
